@@ -169,9 +169,9 @@ Proofs/AgentDir.vos Proofs/AgentDir.vok Proofs/AgentDir.required_vos: Proofs/Age
 Proofs/AgentOrders.vo Proofs/AgentOrders.glob Proofs/AgentOrders.v.beautified Proofs/AgentOrders.required_vo: Proofs/AgentOrders.v Model/Types.vo Model/Side.vo Model/Book.vo Model/Rng.vo Model/Float.vo Model/Env.vo Model/Agents.vo Proofs/Basic.vo Proofs/EnvProps.vo Proofs/AgentProps.vo Proofs/AgentDir.vo
 Proofs/AgentOrders.vio: Proofs/AgentOrders.v Model/Types.vio Model/Side.vio Model/Book.vio Model/Rng.vio Model/Float.vio Model/Env.vio Model/Agents.vio Proofs/Basic.vio Proofs/EnvProps.vio Proofs/AgentProps.vio Proofs/AgentDir.vio
 Proofs/AgentOrders.vos Proofs/AgentOrders.vok Proofs/AgentOrders.required_vos: Proofs/AgentOrders.v Model/Types.vos Model/Side.vos Model/Book.vos Model/Rng.vos Model/Float.vos Model/Env.vos Model/Agents.vos Proofs/Basic.vos Proofs/EnvProps.vos Proofs/AgentProps.vos Proofs/AgentDir.vos
-Proofs/FloatSym.vo Proofs/FloatSym.glob Proofs/FloatSym.v.beautified Proofs/FloatSym.required_vo: Proofs/FloatSym.v Model/Float.vo Model/Types.vo Model/Agents.vo Proofs/AgentDir.vo
-Proofs/FloatSym.vio: Proofs/FloatSym.v Model/Float.vio Model/Types.vio Model/Agents.vio Proofs/AgentDir.vio
-Proofs/FloatSym.vos Proofs/FloatSym.vok Proofs/FloatSym.required_vos: Proofs/FloatSym.v Model/Float.vos Model/Types.vos Model/Agents.vos Proofs/AgentDir.vos
+Proofs/FloatSym.vo Proofs/FloatSym.glob Proofs/FloatSym.v.beautified Proofs/FloatSym.required_vo: Proofs/FloatSym.v Model/Float.vo Model/Types.vo Model/Agents.vo Proofs/AgentDir.vo Model/Map.vo Model/Side.vo Model/Book.vo Model/Env.vo Proofs/Refine.vo Proofs/Views.vo
+Proofs/FloatSym.vio: Proofs/FloatSym.v Model/Float.vio Model/Types.vio Model/Agents.vio Proofs/AgentDir.vio Model/Map.vio Model/Side.vio Model/Book.vio Model/Env.vio Proofs/Refine.vio Proofs/Views.vio
+Proofs/FloatSym.vos Proofs/FloatSym.vok Proofs/FloatSym.required_vos: Proofs/FloatSym.v Model/Float.vos Model/Types.vos Model/Agents.vos Proofs/AgentDir.vos Model/Map.vos Model/Side.vos Model/Book.vos Model/Env.vos Proofs/Refine.vos Proofs/Views.vos
 Proofs/MarketInv.vo Proofs/MarketInv.glob Proofs/MarketInv.v.beautified Proofs/MarketInv.required_vo: Proofs/MarketInv.v Model/Types.vo Model/Map.vo Model/Side.vo Model/Book.vo Model/Obs.vo Model/Rng.vo Model/Env.vo Spec/RefBook.vo Proofs/Basic.vo Proofs/Refine.vo Proofs/Volumes.vo Proofs/Views.vo Proofs/Reload.vo Proofs/EnvProps.vo
 Proofs/MarketInv.vio: Proofs/MarketInv.v Model/Types.vio Model/Map.vio Model/Side.vio Model/Book.vio Model/Obs.vio Model/Rng.vio Model/Env.vio Spec/RefBook.vio Proofs/Basic.vio Proofs/Refine.vio Proofs/Volumes.vio Proofs/Views.vio Proofs/Reload.vio Proofs/EnvProps.vio
 Proofs/MarketInv.vos Proofs/MarketInv.vok Proofs/MarketInv.required_vos: Proofs/MarketInv.v Model/Types.vos Model/Map.vos Model/Side.vos Model/Book.vos Model/Obs.vos Model/Rng.vos Model/Env.vos Spec/RefBook.vos Proofs/Basic.vos Proofs/Refine.vos Proofs/Volumes.vos Proofs/Views.vos Proofs/Reload.vos Proofs/EnvProps.vos
